@@ -4,9 +4,10 @@
      1  make definite positive (1 n eps cons S lam V)
      2  Goulard without constraint (2 nvar ncova npadir maxiter tolred wt gg ge sill0 eigs)
      3  options -> parameters -> bounds (3 ndim nvar ndir zflat opts chars items roots sillneg defaults)
-     4  foxleg bound enforcement (4 delta eps (list (scale p l u h)))
+     4  foxleg bound enforcement (4 delta (list (scale p l u h eps)))
      5  check_param            (5 (list (p l u)))
-     6  ranges written         (6 ndim icov (list parid) (list val)) *)
+     6  ranges written         (6 ndim icov (list parid) (list val) ranges0)
+     7  one Goulard step       (7 n cc lam V) *)
 From Coq Require Import List Arith ZArith QArith Qabs Bool.
 From Gst Require Import lib.Sx lib.QAux lib.LinAlgQ C17.Model C17.ModelPar.
 Import ListNotations.
@@ -81,12 +82,12 @@ Definition asDefaults (s : sx) : option defaults :=
   | _ => None
   end.
 
-Definition asStep (s : sx) : option (Q * Q * option Q * option Q * Q) :=
+Definition asStep (s : sx) : option (Q * Q * option Q * option Q * Q * Q) :=
   match s with
-  | L [sc; p; l; u; h] =>
-      match asQ sc, asQ p, asOQ l, asOQ u, asQ h with
-      | Some a, Some b, Some c, Some d, Some e => Some (a, b, c, d, e)
-      | _, _, _, _, _ => None
+  | L [sc; p; l; u; h; e] =>
+      match asQ sc, asQ p, asOQ l, asOQ u, asQ h, asQ e with
+      | Some a, Some b, Some c, Some d, Some e', Some f => Some (a, b, c, d, e', f)
+      | _, _, _, _, _, _ => None
       end
   | _ => None
   end.
@@ -155,14 +156,14 @@ Definition run (c : sx) : sx :=
           end
       | _, _, _, _, _, _, _, _, _, _ => sx_error 1
       end
-  | L [I 4%Z; dl; ep; steps] =>
-      match asQ dl, asQ ep, asListOf asStep steps with
-      | Some delta, Some eps, Some sts =>
-          L (map (fun '(sc, p, l, u, h) =>
+  | L [I 4%Z; dl; steps] =>
+      match asQ dl, asListOf asStep steps with
+      | Some delta, Some sts =>
+          L (map (fun '(sc, p, l, u, h, eps) =>
                     let b := define_bounds_one delta sc p l u in
                     let g := grad_points eps p l u in
                     L [ofQ (fst b); ofQ (snd b); ofQ (fst g); ofQ (snd g); ofB (shift_ok b h)]) sts)
-      | _, _, _ => sx_error 1
+      | _, _ => sx_error 1
       end
   | L [I 5%Z; ts] =>
       match asListOf asPbound ts with
@@ -173,6 +174,12 @@ Definition run (c : sx) : sx :=
       match asNat nd, asZ ic, asListOf asParid ps, asQL vs, asQL r0 with
       | Some ndim, Some icov, Some ps', Some vals, Some ranges0 => L (map ofQ (ranges_of icov ps' vals ranges0))
       | _, _, _, _, _ => sx_error 1
+      end
+  | L [I 7%Z; n; s; l; v] =>
+      match asNat n, asMatQ s, asQL l, asMatQ v with
+      | Some n', Some cc, Some lam, Some V =>
+          L [ofB (allpos n' (vget lam)); ofFmat n' n' (goulard_newsill n' (get cc) (vget lam) (get V))]
+      | _, _, _, _ => sx_error 1
       end
   | _ => sx_error 0
   end.
